@@ -328,7 +328,8 @@ def register(Rg: Registry):
            requires=["sphere_radius > 0", ("distinct-line-points", lambda E, v, o: dist2(v["line_point_a"], v["line_point_b"]) > 0)],
            ensures=[("returns-exactly-the-real-roots-in-order", fsl_post("roots")),
                     ("points-lie-on-the-line-at-their-parameter", fsl_post("points-on-the-line")),
-                    ("coefficients-are-those-of-the-sphere-equation", fsl_post("quadratic-form"))])
+                    ("coefficients-are-those-of-the-sphere-equation", fsl_post("quadratic-form"))],
+           options=dict(backend_first=["coefficients-are-those-of-the-sphere-equation"]))  # the quantified polynomial identity: cvc5 < 1 s, z3 times out (then hands over to cvc5 anyway)
 
 
 # ===========================================================================
@@ -510,6 +511,24 @@ def _has_numeral(z, q):
     return False
 
 
+def _mentions(z, consts):
+    """does the term contain one of the given uninterpreted constants?"""
+    ids = {c.get_id() for c in consts if z3.is_const(c)}
+    stack, seen = [z], set()
+    while stack:
+        x = stack.pop()
+        if x.get_id() in seen:
+            continue
+        seen.add(x.get_id())
+        if x.get_id() in ids:
+            return True
+        if z3.is_quantifier(x):
+            stack.append(x.body())
+        elif z3.is_app(x):
+            stack.extend(x.children())
+    return False
+
+
 def register_concentric(Rg):
     from pyvc.interp import Rewrite
     from pyvc.lemmas import use
@@ -523,7 +542,14 @@ def register_concentric(Rg):
         equations.  They are disjunctions of |.| comparisons over products of coordinates: no later step needs them, and the
         nonlinear solver is slowed down by them a hundredfold."""
         n0 = E.ghost.get("c13-entry-context-size", len(E.pc))
-        E.pc[:] = [h for k, h in enumerate(E.pc) if k < n0 or not _has_numeral(h, RTOL)]
+        centre = [R(x) for x in E.top_old["sphere"].fields["center"].items]
+
+        def drop(k, h):
+            if k < n0:
+                return False
+            return _has_numeral(h, RTOL) or _mentions(h, centre)
+
+        E.pc[:] = [h for k, h in enumerate(E.pc) if not drop(k, h)]
 
     def h_is_hh(E, v, o):
         return R(v["h"]) == R(v["hh"])
@@ -697,6 +723,41 @@ def register_concentric(Rg):
         h = R(E.sqrt(Sym(dist2(f.fields["c1"], f.fields["c2"]), "real"), nonneg_known=True))
         return R(v["result"]) == V_sf(rs, r1 + r2 - rs, h)
 
+    # union of a sphere with a frustum that shares its centre and radius at one end: inclusion-exclusion over the three closed forms
+    # (the intersection through its VERIFIED contract: its two preconditions are obligations here; get_volume / the volume cache of
+    # the two members are executed as they are)
+    def sfu_setup(end):
+        def setup(S):
+            from swcgeom.utils.volumetric_object import VolSphereFrustumConeUnion
+
+            d = _concentric_setup(end)(S)
+            return dict(self=S.obj(VolSphereFrustumConeUnion, obj1=d["sphere"], obj2=d["frustum_cone"]), hh=d["hh"], r1=d["r1"], r2=d["r2"])
+
+        return setup
+
+    def on_members(clause):
+        return lambda E, v, o: clause(E, dict(sphere=v["self"].fields["obj1"], frustum_cone=v["self"].fields["obj2"]), o)
+
+    def sfu_post(E, v, o):
+        s, f = o["self"].fields["obj1"], o["self"].fields["obj2"]
+        rs, r1, r2 = R(s.fields["radius"]), R(f.fields["r1"]), R(f.fields["r2"])
+        h = R(E.sqrt(Sym(dist2(f.fields["c1"], f.fields["c2"]), "real"), nonneg_known=True))
+        return R(v["result"]) == V_sphere(rs) + V_fr(r1, r2, h) - V_sf(rs, r1 + r2 - rs, h)
+
+    def sfu_members_kept(E, v, o):
+        s, f, s0, f0 = v["self"].fields["obj1"], v["self"].fields["obj2"], o["self"].fields["obj1"], o["self"].fields["obj2"]
+        same = [R(a) == R(b) for a, b in zip(s.fields["center"].items + f.fields["c1"].items + f.fields["c2"].items,
+                                                s0.fields["center"].items + f0.fields["c1"].items + f0.fields["c2"].items)]
+        return z3.And(R(s.fields["radius"]) == R(s0.fields["radius"]), R(f.fields["r1"]) == R(f0.fields["r1"]), R(f.fields["r2"]) == R(f0.fields["r2"]), *same)
+
+    Rg.add(f"{VO}:VolSphereFrustumConeUnion._get_volume", prop="C13",
+           variants={"sphere-at-c1-end": sfu_setup("c1"), "sphere-at-c2-end": sfu_setup("c2")},
+           requires=[("sphere-shares-centre-and-radius-with-one-end-of-the-frustum", on_members(concentric_pre)),
+                     ("radii-and-height-outside-the-librarys-own-tolerance-bands", on_members(bands_pre))],
+           ensures=[("sphere-plus-frustum-minus-the-integral-of-the-smaller-profile", sfu_post),
+                    ("geometry-of-the-two-members-untouched", sfu_members_kept)],
+           notes="any radii (both taper directions in one), arbitrary pose; the members' volume caches may be filled")
+
     Rg.add(f"{VO}:VolSphereFrustumConeIntersection.calc_concentric_intersect_volume", prop="C13",
            variants={"sphere-at-c1-end/widening": _concentric_setup("c1", False), "sphere-at-c2-end/widening": _concentric_setup("c2", False),
                      "sphere-at-c1-end/taper": _concentric_setup("c1", True), "sphere-at-c2-end/taper": _concentric_setup("c2", True)},
@@ -705,7 +766,7 @@ def register_concentric(Rg):
            returns="real",
            ensures=[("equals-integral-of-the-smaller-profile", concentric_post)],
            lemmas=[note_entry],
-           options=dict(
+           options=dict(backend_first="cvc5",  # the vector algebra of the taper branch: cvc5 decides every step in < 1.2 s, z3 is erratic on three of them
                         hints={"post/equals-integral-of-the-smaller-profile": post_hint},
                         asserts_after={"h": [("height-is-the-centre-distance", h_is_hh)],
                                        "up": [("axis-direction-is-the-unit-axis", up_is_u)],
